@@ -265,10 +265,28 @@ class CondNorm:
         out = [self._fact(i, pol)]
         if k == "ref" and n["dk"] == "local":
             init = self.single_init().get(n.get("decl"))
+            if init is not None and self._stale_after(init):
+                init = None       # what the initialiser read has been written since: the local no longer states a fact about the present
             if init is not None and f.nodes[f.strip(init)].get("tw") in ("b", None) or (
                     init is not None and n.get("tw") == "b"):
                 out += self.decompose(init, pol, depth + 1)
         return out
+
+    def _stale_after(self, init):
+        """Is a variable read by initialiser `init` written by a later node of the function (source order)?"""
+        f = self.fn
+        cache = self.__dict__.setdefault("_stale", {})
+        if init not in cache:
+            vs = self.vars_of(init)
+            stale = False
+            if vs:
+                last = max(f.walk(init))
+                for j in range(last + 1, len(f.nodes)):
+                    if f.nodes[j]["k"] != "decl" and set(node_writes(f, j)) & vs:
+                        stale = True
+                        break
+            cache[init] = stale
+        return cache[init]
 
     def _fact(self, i, pol):
         k, flip = self.key(i)
